@@ -120,10 +120,17 @@ def mk_ite(cond, a, b):
 class SymExec:
     """env: name -> value.  effects: list of (kind, payload, path condition tuple)"""
 
-    def __init__(self, env=None):
+    def __init__(self, env=None, decide=None, watch=()):
         self.env = dict(env or {})
         self.effects = []
         self.path = ()
+        self.decide = decide      # optional: test AST -> True / False / None (prunes branches, e.g. for a fixed option value)
+        self.watch = set(watch)   # call names whose evaluation is recorded as ("watch", (name, [arg values], node), path)
+        self.terminated = False   # a return / raise was executed on every path that reaches here
+
+    def _child(self):
+        c = SymExec(self.env, self.decide, self.watch)
+        return c
 
     # ---- expressions -------------------------------------------------------------------
     def text(self, node):
@@ -169,6 +176,8 @@ class SymExec:
             return mk_ite(self.cond_text(n.test), self.val(n.body), self.val(n.orelse))
         if isinstance(n, ast.Call) and dotted(n.func) == "slice" and len(n.args) == 2 and not n.keywords:
             return Slice(self.val(n.args[0]), self.val(n.args[1]))
+        if isinstance(n, ast.Call) and dotted(n.func) in self.watch:
+            self.effects.append(("watch", (dotted(n.func), [self.val(a) for a in n.args], n), self.path))
         return Opaque(self.text(n))
 
     def cond_text(self, test):
@@ -183,6 +192,8 @@ class SymExec:
     # ---- statements --------------------------------------------------------------------
     def run(self, stmts):
         for s in stmts:
+            if self.terminated:
+                break
             self.step(s)
         return self
 
@@ -208,8 +219,9 @@ class SymExec:
         elif isinstance(s, ast.Expr) and isinstance(s.value, ast.Call):
             c = s.value
             self.effects.append(("call", (unparse(c.func), [self.val(a) for a in c.args], s), self.path))
-        elif isinstance(s, ast.Expr) and isinstance(s.value, ast.Constant):
-            pass
+        elif isinstance(s, ast.Expr) and not isinstance(s.value, (ast.Call, ast.Await, ast.Yield, ast.YieldFrom)):
+            # an expression statement whose value is dropped: evaluated for watched calls only
+            self.val(s.value)
         elif isinstance(s, ast.Pass):
             pass
         elif isinstance(s, ast.While):
@@ -219,22 +231,39 @@ class SymExec:
                     self.env[n.id] = Opaque(f"<{n.id} after loop>")
             self.effects.append(("loop", (self.text(s.test), s), self.path))
         elif isinstance(s, ast.If):
+            decided = self.decide(s.test, self) if self.decide is not None else None
+            if decided is not None:
+                self.run(s.body if decided else s.orelse)
+                return
             cond = self.cond_text(s.test)
-            a = SymExec(self.env)
+            a = self._child()
             a.path = self.path + ((cond, True),)
             a.run(s.body)
-            b = SymExec(self.env)
+            b = self._child()
             b.path = self.path + ((cond, False),)
             b.run(s.orelse)
             self.effects.extend(a.effects)
             self.effects.extend(b.effects)
-            for k in set(a.env) | set(b.env):
-                va = a.env.get(k, Opaque(f"<unbound {k}>"))
-                vb = b.env.get(k, Opaque(f"<unbound {k}>"))
-                self.env[k] = mk_ite(cond, va, vb)
+            if a.terminated and b.terminated:
+                self.terminated = True
+            elif a.terminated:
+                self.env = b.env
+                self.path = b.path
+            elif b.terminated:
+                self.env = a.env
+                self.path = a.path
+            else:
+                for k in set(a.env) | set(b.env):
+                    va = a.env.get(k, Opaque(f"<unbound {k}>"))
+                    vb = b.env.get(k, Opaque(f"<unbound {k}>"))
+                    self.env[k] = mk_ite(cond, va, vb)
         elif isinstance(s, (ast.Raise,)):
             self.effects.append(("raise", (s,), self.path))
-        elif isinstance(s, (ast.Break, ast.Continue, ast.Return)):
+            self.terminated = True
+        elif isinstance(s, ast.Return):
+            self.effects.append(("return", (self.val(s.value) if s.value is not None else Opaque("None"), s), self.path))
+            self.terminated = True
+        elif isinstance(s, (ast.Break, ast.Continue)):
             # recorded, not followed: the caller decides what a jump means for its rule
             self.effects.append(("jump", (s,), self.path))
         else:
